@@ -269,10 +269,16 @@ class Shadow:
         if missing:
             raise Unsupported(f"{target.key}: loop contract(s) {missing} do not match any loop of the current text "
                               f"(loops present: {ft.seen})")
+        # a class that derives from a builtin (`class ValueEstimate(float)`) must name the real builtin class, not the symbolic-aware callable of the same name
+        for node in ast.walk(tree):
+            if isinstance(node, ast.ClassDef):
+                node.bases = [ast.Attribute(value=ast.Name(id="_pybuiltins", ctx=ast.Load()), attr=b.id, ctx=ast.Load())
+                              if isinstance(b, ast.Name) and b.id in vrt.REBOUND_BUILTINS and hasattr(__import__("builtins"), b.id) else b for b in node.bases]
         ast.fix_missing_locations(tree)
         ns = dict(self.real.__dict__)
         ns["__name__"] = self.modname
         ns["_vfw"] = vrt
+        ns["_pybuiltins"] = __import__("builtins")
         ns.update(vrt.REBOUND_BUILTINS)
         for k, v in SPEC_NAMES.items():
             ns.setdefault(k, v)
